@@ -27,7 +27,7 @@ var axes = []axis{
 	{"residual", 3, func(k *cfg, a int) { k.Residual = a }},
 	{"batch", 3, func(k *cfg, a int) { k.Batch = a }},
 	{"ctgap", 2, func(k *cfg, a int) { k.CtGap = a }},
-	{"iter", 2, func(k *cfg, a int) { k.Iter = a }},
+	{"iter", 3, func(k *cfg, a int) { k.Iter = a }},
 	{"mod1", 2, func(k *cfg, a int) { k.Mod1 = a }},
 	{"dblangle", 3, func(k *cfg, a int) { k.DblAngle = a }}, // DoubleAngle 0,1,2 (3 is the default)
 	{"arcsine", 2, func(k *cfg, a int) { k.ArcSine = a }},
@@ -35,6 +35,7 @@ var axes = []axis{
 	{"s2c", len(s2cSplits) - 1, func(k *cfg, a int) { k.S2C = a }},
 	{"inlevel", 2, func(k *cfg, a int) { k.InLevel = a }},
 	{"small", 1, func(k *cfg, a int) { k.Small = true }},
+	{"q0", 2, func(k *cfg, a int) { k.Q0 = a }}, // first residual prime below the EvalMod scale: ModUp has to scale the raised ciphertext
 }
 
 type base struct{ logN, logSlots, ctGap int }
@@ -160,7 +161,7 @@ func main() {
 		Level: "exploration",
 		Rule: "One leaf = one parameter set instantiated through the public constructors with freshly generated keys. " +
 			"Item 1: every exported default literal at LogN 8..10 and every reduced configuration: levels of every polynomial of every generated key, Galois set == advertised set, key requests recorded during a real bootstrap. " +
-			"Item 2: configurations within a deviation bound of the ordinary one over 13 option axes x (LogN, LogSlots) bases (quick: <=1 deviation on every base of LogN 8,9 and <=2 on the fully packed and the single-slot base of LogN 8; thorough: <=2 on every base of LogN 8 and on those two bases of LogN 9, <=1 elsewhere incl. LogN 10), plus the full product ring relation x sparsity x batch size on a ShallowCopy; one batch of ciphertexts with pairwise distinct slot values each. " +
+			"Item 2: configurations within a deviation bound of the ordinary one over 14 option axes x (LogN, LogSlots) bases (quick: <=1 deviation on every base of LogN 8,9 and <=2 on the fully packed and the single-slot base of LogN 8; thorough: <=2 on every base of LogN 8 and on those two bases of LogN 9, <=1 elsewhere incl. LogN 10), plus the full product ring relation x sparsity x batch size on a ShallowCopy; one batch of ciphertexts with pairwise distinct slot values each. " +
 			"Item 3: CoeffsToSlots∘SlotsToCoeffs for every depth split x slot count, mod1 evaluator on a grid of its interval for every literal option. " +
 			"distinct_nontrivial counts distinct (configuration, observed precision/levels) classes.",
 		Assumptions: []string{
